@@ -134,6 +134,10 @@ def check_trans_order(facts, rep):
     for nm, (fld, order) in want.items():
         inst = 'Trans::%s|denotes %s' % (nm, 'f_n ... f_0' if order == 'desc' else 'b_0 ... b_n')
         got = {(f[0], denotes(f)) for f in res[nm]}
+        if not res[nm]:
+            # no fold: the same composition may be written as a loop - E27.W1 reads that form; nothing to say here
+            rep.ok('E10b.trans-composition-order', inst, 'no fold in this body (see E27.W1)')
+            continue
         if got == {(fld, order)}:
             rep.ok('E10b.trans-composition-order', inst, 'fold %s' % sorted(res[nm]))
         else:
